@@ -58,7 +58,7 @@ T_R3 = "CFG dominance / guard-or-forward analysis over MIR in dev and release co
 PROPS = {
     "C01": {
         "clauses": [fam("Add", "Sub"), signed("Add", "Sub"), both(r3.check_underflow_asserts), r3.check_checked_sub, r3.check_add2_carry_used, r4.check_block_loops, r4.check_block_loop_callers, r5check.check_arithmetic({"Add", "Sub"}, 30)],
-        "not_decided": "the scalar tail's adc/sbb arithmetic, carry propagation into the longer operand, result growth; sign/magnitude dispatch tables (planned R5)",
+        "not_decided": "the scalar tail's adc/sbb arithmetic, carry propagation into the longer operand, result growth",
         "level_text": "Decides structural necessary conditions for every input: the two x86_64 block loops are well-formed carry chains (template data flow, addressing, "
         "counter = len/5, carry preserved to setc, add/sub agree) and hand (carry, done) to the scalar tail; all + and - operator forms forward with operands in order (never swapped for -), "
         "the underflow assertions of sub2/sub2rev are mandatory in release builds and test both the final borrow and the subtrahend's high digits, "
@@ -67,7 +67,7 @@ PROPS = {
     },
     "C02": {
         "clauses": [fam("Mul"), signed("Mul"), both(r3.check_underflow_asserts), r3.check_add2_carry_used, r8.check_cost, r5check.check_arithmetic({"Mul"}, 15)],
-        "not_decided": "temporary sizing, the Karatsuba/Toom-3 algebra, mac_with_carry arithmetic, the power-of-two shortcut (all value-level); rule-of-signs table (planned R5)",
+        "not_decided": "temporary sizing, the Karatsuba/Toom-3 algebra, mac_with_carry arithmetic, the power-of-two shortcut (all value-level)",
         "level_text": "Decides: all Mul operator forms forward with operands in either order only because * is commutative, or are reviewed implementations; the carry-overflow "
         "assertion of mac_digit is mandatory in release builds and tests the carry returned by __add2; no call site drops a carry; the regime dispatch has a "
         "base case (no recursive product at or below the schoolbook threshold).",
@@ -75,7 +75,7 @@ PROPS = {
     },
     "C03": {
         "clauses": [fam("Div", "Rem"), signed("Div", "Rem"), both(r3.check_div_guards), r3.check_checked_div, r3.check_division_sites, r5check.check_arithmetic({"Div", "Rem"}, 30), r5check.check_division_methods],
-        "not_decided": "Knuth algorithm D (trial digit, add-back), normalisation shifts, single-digit loops; the sign fix-up tables of the rounding conventions (planned R5)",
+        "not_decided": "Knuth algorithm D (trial digit, add-back), normalisation shifts, single-digit loops",
         "level_text": "Decides for every input: each of the ~390 division-family functions either tests its divisor for zero with a release-mode panic before any "
         "division work or forwards the divisor to another division function; the 9 checked division functions return None on the zero edge and reach a "
         "division only behind the non-zero edge; all Div/Rem operator forms forward with operands in order; every internal division call site divides by a "
@@ -83,8 +83,8 @@ PROPS = {
         "technique": T_R3 + "; " + T_R2,
     },
     "C05": {
-        "clauses": [guards("modulus", "exponent"), r3.check_parity_dispatch, r3.check_residue_complement, r3.check_division_sites],
-        "not_decided": "Montgomery arithmetic, inv_mod_alt, window walk, plain_modpow, extended Euclid; complete sign-placement table (planned R5)",
+        "clauses": [guards("modulus", "exponent"), r3.check_parity_dispatch, r3.check_residue_complement, r3.check_division_sites, r5check.check_modular],
+        "not_decided": "Montgomery arithmetic, inv_mod_alt, window walk, plain_modpow, extended Euclid",
         "level_text": "Decides: zero-modulus and negative-exponent guards exist in release builds and dominate the computation; the Montgomery path is entered only "
         "behind is_odd(modulus); every modulus-minus-residue complement in modpow/modinv/mod_floor is guarded by residue != 0 (the clause that exposed "
         "the modinv defect for |modulus| = 1); reductions divide by the guarded modulus.",
@@ -100,15 +100,15 @@ PROPS = {
         "technique": T_R3 + " with interprocedural radix-range summaries; const-evaluated static tables read from the compiler; MIR argument-provenance tables",
     },
     "C07": {
-        "clauses": [guards("shift"), fam("Shl", "Shr", "BitAnd", "BitOr", "BitXor")],
-        "not_decided": "running two's-complement carries, intra-digit shifts, bit queries; bit-operator sign tables (planned R5)",
+        "clauses": [guards("shift"), fam("Shl", "Shr", "BitAnd", "BitOr", "BitXor"), r5check.check_helpers],
+        "not_decided": "running two's-complement carries, intra-digit shifts, bit queries; bit-operator sign tables",
         "level_text": "Decides: the negative-shift panic precedes everything else in biguint_shl/biguint_shr in release builds (comparison against T::zero() on the shift "
         "amount); every shift/bit operator form is a verified forwarder or a reviewed implementation.",
         "technique": T_R3 + "; " + T_R2,
     },
     "C04": {
-        "clauses": [r9.check_eq_ord_hash, r9.check_sign_readers],
-        "not_decided": "canonical form at every exported boundary (planned R1 typestate); cmp_slice's most-significant-first iteration order; Ord sign table (planned R5)",
+        "clauses": [r9.check_eq_ord_hash, r9.check_sign_readers, r5check.check_helpers],
+        "not_decided": "canonical form at every exported boundary (planned R1 typestate); cmp_slice's most-significant-first iteration order",
         "level_text": "Decides (release code only, debug assertions excluded): Eq/Ord/Hash of BigInt read sign and magnitude of every operand, of BigUint the digit vector; Hash reads "
         "only components that Eq compares; cmp_slice consults both lengths and both contents; sign-dependent exporters read the sign.",
         "technique": "interprocedural field read-set analysis over MIR (necessity rule: a result that depends on a component must read it)",
@@ -131,7 +131,7 @@ PROPS = {
         "technique": T_R2,
     },
     "C11": {
-        "clauses": [guards("root"), r6.check_cfg_taint, r3.check_division_sites],
+        "clauses": [guards("root"), r6.check_cfg_taint, r3.check_division_sites, r5check.check_roots],
         "not_decided": "Newton convergence (assumed: fixpoint reaches the floor root from any guess), the u64 fast path, float guesses",
         "level_text": "Decides: n > 0 (zeroth root) and the imaginary-root assertions (negative with even degree, sqrt of a negative) are mandatory in release builds, "
         "test the right operands and dominate every return; the std/no_std difference in nth_root/sqrt/cbrt is confined to the initial guess passed to "
@@ -139,13 +139,13 @@ PROPS = {
         "technique": T_R3 + "; cross-configuration MIR diff with forward taint (cfg-taint)",
     },
     "C12": {
-        "clauses": [fam("Pow")],
-        "not_decided": "square-and-multiply arithmetic; powsign table and 0^0 decision order (planned R5)",
+        "clauses": [fam("Pow"), r5check.check_powers],
+        "not_decided": "square-and-multiply arithmetic; 0^0 decision order of the BigUint exponent form",
         "level_text": "Decides: all Pow operator forms (by value / by reference, every exponent type) are verified forwarders or reviewed implementations.",
         "technique": T_R2,
     },
     "C13": {
-        "clauses": [r3.check_division_sites],
+        "clauses": [r3.check_division_sites, r5check.check_helpers],
         "not_decided": "Stein's algorithm, extended_gcd (num-integer), arithmetic of the multiple-of helpers",
         "level_text": "Decides: lcm / gcd_lcm / extended_gcd_lcm divide only by a gcd shown non-zero by a dominating test (own zero test, or the joint zero test of exactly the "
         "gcd's two arguments); is_multiple_of takes the remainder only behind other != 0 and answers self == 0 otherwise.",
@@ -199,6 +199,14 @@ PROPS = {
         "constants read from MIR); BigInt <-> the pair (sign, magnitude) in this order, rebuilt through the canonicalising from_biguint; pre-allocation from "
         "size hints is capped; the declared sequence length and the conditional emission of the last high half test the same value; enabling serde changes no other function.",
         "technique": "MIR switch-table and constant extraction, argument provenance; cross-configuration MIR fingerprints",
+    },
+    "C19": {
+        "clauses": [r5check.check_helpers, r5check.check_arithmetic({"Mul"}, 15)],
+        "not_decided": "is_zero <=> empty digit vector relies on the canonical-form invariant (planned R1); from_biguint's own body (calls into digit-level code) is used as a model, its table is checked separately",
+        "level_text": "Decides essentially the whole property, because it is finite: an abstract interpreter enumerates every sign case (and order / zero-ness case on demand) of "
+        "Neg for Sign, Mul<Sign>, Neg, Not, abs, signum, is_positive, is_negative, abs_sub, sign, magnitude, into_parts, zero/one/default, set_zero, Ord, PartialEq, "
+        "to_biguint / to_bigint / From<BigUint>, inc, dec and compares the returned term with the mathematical definition by polynomial normal form - for all magnitudes at once.",
+        "technique": "abstract interpretation of MIR over the sign domain {-,0,+} with polynomial result terms, compared by normal form with oracle tables written from the definitions",
     },
     "C20": {
         "clauses": [r8.check_cost],
